@@ -133,6 +133,7 @@ def check(rep, ctx):
             rep.check(R_E, not diffs, construct=f"{key}.{f['name']}", stmt=f"{pf['r_codec']['fn']} / {pf['w_codec']['fn']}",
                       message="; ".join(diffs), **W.codec_loc(pf.get("r_codec")))
     rep.sample({"rule": "C10-a-exceptions", "seen": sorted({e for (e, s) in seen})})
+    W.finish(rep)
     rep.extra.update(max_nesting_depth=max((d for d in depth.values() if d), default=0),
                      min_item_size=min((v for v in cmin.values()), default=None),
                      notes=[r for r in eng["effects"] if r[1] == "note"][:3])
